@@ -125,21 +125,36 @@ def cli_hash_seeds(r, n_inputs, seeds):
             # make sure a ranking exists: two proteins get a peptide of their own
             pil.append(["UNIQUEAK", gens.fr(0.002), [pil[0][2][0]]])
             pil.append(["UNIQUEBK", gens.fr(0.03), [pil[-2][2][-1]]])
-        method = r.rng.choice(["picked_protein_group_mq_input_no_remap"])
         d = tempfile.mkdtemp(prefix="c07_", dir=core.scratch())
-        ev = write_inputs(d, pil, r.rng)
+        if k % 3 == 2:
+            # several methods in one command line (they share one random stream, so the order in which they run is part of the result):
+            # Percolator input, the three methods that take the proteins from the file
+            from .. import filegen
+            from fractions import Fraction
+            method = "classic_no_grouping_no_remap,picked_protein_group_no_remap,savitski_no_remap"
+            ev = os.path.join(d, "perc.tab")
+            filegen.write_percolator(ev, [{"peptide": e, "proteins": list(ps), "pep": float(Fraction(sc))} for e, sc, ps in pil])
+            flag = "--perc_evidence"
+        else:
+            method = "picked_protein_group_mq_input_no_remap"
+            ev = write_inputs(d, pil, r.rng)
+            flag = "--mq_evidence"
         outs = {}
         procs = []
         for hs in seeds:
-            out = os.path.join(d, f"pg_{hs}.txt")
+            sub = os.path.join(d, f"hs{hs}")
+            os.makedirs(sub)
+            out = os.path.join(sub, "pg.txt")
             env = dict(env_base, PYTHONHASHSEED=str(hs))
-            p = subprocess.Popen([sys.executable, "-W", "ignore", "-c", CLI_SCRIPT, "--mq_evidence", ev, "--methods", method,
-                                  "--protein_groups_out", out], env=env, stdout=subprocess.DEVNULL, stderr=subprocess.PIPE)
-            procs.append((hs, out, p))
-        for hs, out, p in procs:
+            p = subprocess.Popen([sys.executable, "-W", "ignore", "-c", CLI_SCRIPT, flag, ev, "--methods", method,
+                                  "--protein_groups_out", out], env=env, cwd=sub, stdout=subprocess.DEVNULL, stderr=subprocess.PIPE)
+            procs.append((hs, sub, p))
+        for hs, sub, p in procs:
             _, err = p.communicate(timeout=300)
             n_runs += 1
-            outs[hs] = open(out, "rb").read() if os.path.exists(out) else ("<no output> " + err.decode()[-300:]).encode()
+            written = sorted(os.listdir(sub))
+            outs[hs] = b"".join(f.encode() + b"\n" + open(os.path.join(sub, f), "rb").read() for f in written) if written \
+                else ("<no output> " + err.decode()[-300:]).encode()
         if len(set(outs.values())) != 1:
             r.violation("property-failure",
                         {"suite": "cli_hash_seeds", "pil": pil, "method": method,
